@@ -19,7 +19,9 @@ RULE = (
     "SCMs with explicit exogenous noise shared across worlds (positive by construction). make_counterfactual_graph must "
     "return (graph, event') with P(event') == P(event) for every base assignment in every model (exact), or (graph, None) "
     "only if P(event) == 0 in all drawn models and assignments; the graph must be acyclic, contain exactly the ancestors "
-    "of event' and every variable of event'. Non-trivial = >=2 worlds and at least one merge or refused merge (node count "
+    "of event' and every variable of event'. The returned graph is also read as a diagram over its own nodes: any two nodes "
+    "it m-separates marginally must be independent counterfactual variables in the drawn models (this is what 'the graph "
+    "describes the event' amounts to for the consumer, ID*; the unchanged tree satisfies it on every case drawn). Non-trivial = >=2 worlds and at least one merge or refused merge (node count "
     "below the parallel-worlds count or event relabelled); distinct = distinct (graph, event)."
 )
 ASSUMPTIONS = [
@@ -103,9 +105,47 @@ def check(case, ignore_regions=False) -> Outcome:
                 t1 = cfutil.truth(m, new_items, env)
                 if t0 != t1:
                     return fail("probability-changed", assignment=env, original=str(t0), relabelled=str(t1), new_event=cfutil.show(new_items), model=m.params())
+    # the returned graph read as a causal diagram over its own nodes: two nodes it separates marginally are
+    # independent counterfactual variables in every model (a dropped bidirected edge between two copies of a variable
+    # that share their noise shows here)
+    if new_event is not None and len(cg.nodes()) >= 2:
+        bad = _separated_but_dependent(cg, g, case)
+        if bad:
+            return fail("graph-separates-two-dependent-counterfactual-variables", new_event=cfutil.show(new_items), **bad)
     out.nontrivial = "worlds>=2" in labels and ("merged" in labels or "inconsistent" in labels)
     out.labels = sorted(labels)
     return out
+
+
+def _separated_but_dependent(cg, g, case):
+    from y0.dsl import CounterfactualVariable
+
+    from ..ref_sep import SepOracle
+
+    nodes = sorted(cg.nodes(), key=str)
+    label = {n: str(n) for n in nodes}
+    oracle = SepOracle([label[n] for n in nodes], [(label[u], label[v]) for u, v in cg.directed.edges()], [(label[u], label[v]) for u, v in cg.undirected.edges()], cross_check=False)
+
+    def subs(n):
+        return [(i.name, bool(i.star)) for i in n.interventions] if isinstance(n, CounterfactualVariable) else []
+
+    pairs = [(a, b) for a, b in itt.combinations(nodes, 2) if not any(x == a.name for x, _ in subs(a)) and not any(x == b.name for x, _ in subs(b)) and oracle.separated(label[a], label[b], ())]
+    if not pairs:
+        return None
+    snames = sorted({x for n in nodes for x, _ in subs(n)})
+    for k in range(2):
+        m = FSCM(g, case["mseed"] + 7919 * k, max_card=case["max_card"] if k == 0 else 2, clique_mode=bool(k))
+        for vals in itt.product(*[range(m.card[n]) for n in snames]):
+            env = dict(zip(snames, vals))
+            for a, b in pairs:
+                da = {x: cfutil.value(s_, x, env, m.card) for x, s_ in subs(a)}
+                db = {x: cfutil.value(s_, x, env, m.card) for x, s_ in subs(b)}
+                for va in range(m.card[a.name]):
+                    pa = m.prob_event([(a.name, da, va)])
+                    for vb in range(m.card[b.name]):
+                        if m.prob_event([(a.name, da, va), (b.name, db, vb)]) != pa * m.prob_event([(b.name, db, vb)]):
+                            return {"pair": [label[a], label[b]], "subscript_values": env, "values": [va, vb], "model": m.params(), "graph_nodes": [label[n] for n in nodes], "graph_directed": sorted((label[u], label[v]) for u, v in cg.directed.edges()), "graph_bidirected": sorted(sorted((label[u], label[v])) for u, v in cg.undirected.edges())}
+    return None
 
 
 LEVEL_TEXT = (
